@@ -316,7 +316,9 @@ class SimEnv:
         rawmode = "".join(c for c in mode if c in "rwax+")
         self.event("open", role, rawmode, None)
         self.op("open", role)
-        short_ok = buffering != 0
+        # a regular file never returns short reads from the raw layer; a FIFO / pipe / network file does.
+        # knob "pipe_like": roles whose file behaves like that even when opened unbuffered
+        short_ok = buffering != 0 or role in (self.knobs.get("pipe_like") or ())
         raw = SimRaw(self, abspath, rawmode, role, short_ok)
         if buffering == 0:
             return raw
